@@ -17,11 +17,12 @@ Print Assumptions C19_only_prefixes_shape.
 (** Non-interference: whatever the cache holds, two hosts whose enumerated
     names have the same prefixes and that both cause a lookup send the very
     same question (full hashes and names do not reach the wire). *)
-Theorem C19_only_prefixes : forall sha pubsuf suffix cache_time svc1 svc2 now c host1 host2 q1 q2,
+Theorem C19_only_prefixes : forall sha pubsuf suffix cache_time svc1 svc2 order1 order2 evs1 evs2
+    now c host1 host2 q1 q2,
   map prefix_of (hostname_to_hashes sha pubsuf host1)
     = map prefix_of (hostname_to_hashes sha pubsuf host2) ->
-  o_question (snd (check sha pubsuf suffix cache_time svc1 now host1 c)) = Some q1 ->
-  o_question (snd (check sha pubsuf suffix cache_time svc2 now host2 c)) = Some q2 ->
+  o_question (snd (check sha pubsuf suffix cache_time svc1 order1 evs1 now host1 c)) = Some q1 ->
+  o_question (snd (check sha pubsuf suffix cache_time svc2 order2 evs2 now host2 c)) = Some q2 ->
   q1 = q2.
 Proof. exact check_question_only_prefixes. Qed.
 Print Assumptions C19_only_prefixes.
@@ -55,19 +56,23 @@ Print Assumptions C19_verdict.
 
 (** ... and for any service: iff a well-formed string of the answer is the
     full hash of one of the names asked about. *)
-Theorem C19_verdict_answer : forall sha pubsuf suffix cache_time svc now host strs hs,
+Theorem C19_verdict_answer : forall sha pubsuf suffix cache_time svc order evs now host strs hs,
   find_in_cache now [] (hostname_to_hashes sha pubsuf host) = ToRequest hs ->
   svc (map prefix_of hs) = Some strs ->
-  o_blocked (snd (check sha pubsuf suffix cache_time svc now host [])) = true <->
+  o_blocked (snd (check sha pubsuf suffix cache_time svc order evs now host [])) = true <->
   exists h, In h hs /\ In h (parse_txt strs).
 Proof. exact verdict_answer_spec. Qed.
 Print Assumptions C19_verdict_answer.
 
 (** Cache transparency: for every history of checks (each against a service
-    for [db] that may fail or add malformed strings), clock changes and
-    evictions, starting from an empty cache: every check that did not fail
-    returns what a fresh lookup (at any instant) returns; a failed one says
-    "not blocked" and leaves the cache unchanged. *)
+    for [db] that may fail or add malformed strings; each with an arbitrary
+    iteration order of the Go map and, for every single [cache.Set] it makes,
+    an arbitrary set of entries the LRU cache evicts and an arbitrary decision
+    whether the item is kept), clock changes and evictions between checks,
+    starting from an empty cache: every check that did not fail returns what
+    a fresh lookup (at any instant) returns; a failed one says "not blocked"
+    and leaves the cache unchanged.  Eviction, at whatever point, only ever
+    causes lookups. *)
 Theorem C19_cache_transparent : forall sha pubsuf suffix cache_time db ops now0,
   Forall hash_wf db -> Forall (op_ok db) ops ->
   forall now', history_transparent (fresh_verdict sha pubsuf suffix cache_time db now')
@@ -76,9 +81,9 @@ Proof. exact cache_transparent. Qed.
 Print Assumptions C19_cache_transparent.
 
 (** The invariant behind it, for any starting cache. *)
-Theorem C19_cache_invariant : forall sha pubsuf suffix cache_time db svc now host c,
+Theorem C19_cache_invariant : forall sha pubsuf suffix cache_time db svc order evs now host c,
   cache_inv db c -> svc_ok db svc ->
-  let res := check sha pubsuf suffix cache_time svc now host c in
+  let res := check sha pubsuf suffix cache_time svc order evs now host c in
   cache_inv db (fst res) /\
   (o_err (snd res) = false -> o_blocked (snd res) = db_verdict sha pubsuf db host) /\
   (o_err (snd res) = true -> fst res = c /\ o_blocked (snd res) = false).
@@ -102,18 +107,32 @@ Proof.
   split; [exact db_wf_example|]. split; [apply history_example|exact same_prefixes_example].
 Qed.
 
-(** The assumption "no eviction in the middle of one storeInCache" is needed:
-    dropping the freshly stored positive entry before the negative phase makes
-    the next check answer "clean" from the cache for a name in the database. *)
+(** The store as it was before commit c62e74a ([PreFix]: the second loop asked
+    only the cache whether a prefix had an answer) did not have this property:
+    dropping the freshly stored positive entry before the second loop made the
+    next check answer "clean" from the cache for a name in the database. *)
 Theorem C19_midstore_eviction_refuted :
   let hs := [Examples.sha Examples.evil] in
-  let c := store_negative 3650 hs
-             (cdel (prefix_of (Examples.sha Examples.evil)) (store_positive 3650 hs [])) in
+  let c := PreFix.store_negative 3650 hs
+             (cdel (prefix_of (Examples.sha Examples.evil)) (PreFix.store_positive 3650 hs [])) in
   answer_ok Examples.db (map prefix_of hs) hs /\
   o_blocked (snd (check Examples.sha Examples.pubsuf Examples.sfx Examples.ct
-                    (db_service Examples.db) 0 Examples.evil c)) = false /\
+                    (db_service Examples.db) [] [] 0 Examples.evil c)) = false /\
   o_question (snd (check Examples.sha Examples.pubsuf Examples.sfx Examples.ct
-                    (db_service Examples.db) 0 Examples.evil c)) = None /\
+                    (db_service Examples.db) [] [] 0 Examples.evil c)) = None /\
   db_verdict Examples.sha Examples.pubsuf Examples.db Examples.evil = true.
 Proof. exact midstore_eviction_poisons. Qed.
 Print Assumptions C19_midstore_eviction_refuted.
+
+(** Non-vacuity for evictions inside a check: a history on a cache so small
+    that the second [Set] of a check evicts what the first stored and a later
+    item is not kept at all; all three checks still block, each by a lookup. *)
+Example C19_small_cache_premises_satisfiable :
+  map (fun r => match snd r with
+                | Some o => Some (o_blocked o, match o_question o with Some _ => true | None => false end,
+                                  o_sets_left o)
+                | None => None end)
+      (run Examples.sha Examples.pubsuf Examples.sfx Examples.ct Examples.ops_small (0%Z, []))
+  = [Some (true, true, 0%nat); Some (true, true, 0%nat); Some (true, true, 0%nat)]
+  /\ Forall (op_ok Examples.db) Examples.ops_small.
+Proof. exact midstore_eviction_now. Qed.
